@@ -4,6 +4,7 @@ import (
 	"encoding/json"
 	"fmt"
 	"os"
+	"path/filepath"
 	"sort"
 	"strings"
 
@@ -23,6 +24,11 @@ type PCase struct {
 	// Extra raw-text documents (possibly malformed) run only against the real code, optionally after a
 	// prior document was decoded into the same destination (C19).
 	Extra []ExtraDoc
+	// Files are written next to the main schema file (path relative to the case directory -> content):
+	// sibling schemas reached through file $refs, in any directory layout.
+	Files map[string][]byte
+	// MainBytes overrides the serialisation of Schema as the main file's content (YAML spellings, key order).
+	MainBytes []byte
 }
 
 type ExtraDoc struct {
@@ -105,7 +111,16 @@ func RunPipeline(cases []*PCase) ([]*PResult, *Batch, error) {
 			r.DocJSON = append(r.DocJSON, string(MustJSON(d)))
 		}
 		dir := fmt.Sprintf("%s/c%d", tmp, c.ID)
-		r.Real = RunReal(dir, c.Cfg, c.SchemaID, r.SchemaJSON)
+		for name, data := range c.Files {
+			fn := filepath.Join(dir, name)
+			_ = os.MkdirAll(filepath.Dir(fn), 0o755)
+			_ = os.WriteFile(fn, data, 0o644)
+		}
+		mainBytes := r.SchemaJSON
+		if c.MainBytes != nil {
+			mainBytes = c.MainBytes
+		}
+		r.Real = RunReal(dir, c.Cfg, c.SchemaID, mainBytes)
 		r.RootName = c.DecodeType
 		if r.RootName == "" {
 			r.RootName = RootName(c.Cfg, c.Schema)
